@@ -10,7 +10,7 @@ Local Open Scope Z_scope.
 (* authorisation facts read from the state BEFORE the transaction *)
 Inductive c03_fact :=
 | FCustody (owner benef : Z) (cs reward : coins) (legit_votes n mode : Z) (enabled pw_ok : bool)
-           (caller_is_fresh_custodian : bool)
+           (caller_is_fresh_custodian : bool) (recorded_votes : Z)
     (* the pending custody transfer named by an approve/confirm message of this transaction:
        approvals so far by LISTED custodians, number of custodians, required percentage *)
 | FRotate (owner new : Z) (proof_ok : bool)
@@ -132,7 +132,7 @@ Definition bal_delta (c : c03_case) (a : Z) (d : string) : Z :=
    custodians (the caller's own approval included when he is one and has not voted yet) *)
 Definition custody_threshold (f : c03_fact) : bool :=
   match f with
-  | FCustody _ _ _ _ legit n mode enabled pw_ok fresh =>
+  | FCustody _ _ _ _ legit n mode enabled pw_ok fresh _ =>
       (if enabled && (0 <? n) then mode * n <=? (legit + (if fresh then 1 else 0)) * 100 else true) && pw_ok
   | _ => false
   end.
@@ -142,7 +142,7 @@ Definition custody_share (reward : coins) (n : Z) (d : string) : Z :=
 Fixpoint custody_fact_of (o : Z) (fs : list c03_fact) : option c03_fact :=
   match fs with
   | [] => None
-  | (FCustody o' _ _ _ _ _ _ _ _ _ as f) :: r => if o' =? o then Some f else custody_fact_of o r
+  | (FCustody o' _ _ _ _ _ _ _ _ _ _ as f) :: r => if o' =? o then Some f else custody_fact_of o r
   | _ :: r => custody_fact_of o r
   end.
 Fixpoint rotate_fact_of (o : Z) (fs : list c03_fact) : option (Z * bool) :=
@@ -158,7 +158,7 @@ Definition coin_clause (c : c03_case) (a : Z) (d : string) (b f : Z) : list stri
   if (b <=? f) || negb (is_user a) || signed c a then [] else
   let drop := b - f in
   match custody_fact_of a (k_facts c) with
-  | Some (FCustody _ benef cs reward legit n mode enabled pw_ok fresh as fact) =>
+  | Some (FCustody _ benef cs reward legit n mode enabled pw_ok fresh recorded as fact) =>
       let share := if fresh then custody_share reward n d else 0 in
       if custody_threshold fact then
         (* released: at most the requested amount plus the caller's reward share, and the
@@ -169,7 +169,11 @@ Definition coin_clause (c : c03_case) (a : Z) (d : string) (b f : Z) : list stri
         (if (benef =? a) || (amount_of cs d <=? bal_delta c benef d) || (drop <=? share) then []
          else ["custody-release-not-to-beneficiary"])
       else
-        (if fresh then (if drop <=? share then [] else ["custody-release-below-threshold"])
+        (* every vote on record is a listed custodian's, yet the transfer was released short of the
+           configured share: the threshold arithmetic itself is off *)
+        (if fresh then (if drop <=? share then []
+                        else if recorded =? legit then ["custody-threshold-arithmetic"]
+                        else ["custody-release-below-threshold"])
          else (if drop <=? custody_share reward n d then ["custody-reward-to-non-custodian"]
                else ["custody-reward-to-non-custodian"; "custody-release-below-threshold"]))
   | _ =>
